@@ -258,6 +258,6 @@ func init() {
 			b, _ := json.Marshal(v.Witness)
 			return "re-run: kvcheck one C15 quick " + v.Unit + "\nwitness: " + string(b)
 		},
-		BudgetQuick: 110, BudgetThorough: 900,
+		BudgetQuick: 150, BudgetThorough: 900,
 	})
 }
